@@ -65,3 +65,7 @@ add("C06", "exploration", "exhaustive byte-level mutation enumeration of real WA
 add("C34", "model_checking", "explicit-state search of the restart graph: crash points of histories x crash points of the startup itself, every state closed by a real startup",
     "states = device images with the server down, de-duplicated by content hash; level 1 = 5 histories crashed at every device-operation prefix (+ planted empty/header-only/replayed/unparsable WAL files), level 2 = a startup crashed at every one of its own device operations, level 3 (thorough) = a second crashed startup; invariant evaluated in every state by a complete startup: every acknowledged or committed row of a still-existing bucket visible, own WAL untouched, no foreign WAL left, a further restart writes nothing",
     CR + "; independent WAL/TG decoder", "crashmc")
+SC = "Go toolchain; tools/instr rewriter (every channel/select/go/sync/time operation and every statement mentioning a package-level variable of the instrumented packages becomes a scheduling point; output type-checked by the build); vos device ops as scheduling points; cooperative scheduler (no memory-model effects); determinism double-run and prefix-divergence checks"
+add("C07", "model_checking", "stateless deviation-bounded DFS over thread interleavings of the real SyncWAL loop and writers under a controlled scheduler",
+    "real SyncWAL goroutine + 2 (and 3) writers + WAL timer; ALL schedules with <=2 deviations (thorough: 3 for 2 writers) from the default run-until-block schedule; at the step a request returns the durable WAL view (content as of its last fsync, rebuilt from the device log) must hold a committed checksum-valid transaction with the writer's row and a query must see it",
+    SC, "schedmc")
